@@ -143,6 +143,12 @@ def generate():
         ok &= "if batch:\n        x.insertb(y)\n    else:\n        x.insert(y)" in ins
         idx = ast.unparse(astlib.find_func(m, "eval_sys_fn_index"))
         ok &= "if x.has_index():\n        raise" in idx and "x.set_index(list(y))" in idx
+        # the wrapper validates EVERY index column before anything is mutated
+        ifn = astlib.find_func(m, "eval_sys_fn_index")
+        loops = [n for n in astlib.body_no_doc(ifn) if isinstance(n, ast.For)]
+        ok &= len(loops) == 1 and ast.unparse(loops[0]).startswith("for q in y:\n    if q not in x.columns:\n        raise")
+        ok &= bool(loops) and all(not astlib.calls_in(st, "set_index") for st in astlib.body_no_doc(ifn)[:astlib.body_no_doc(ifn).index(loops[0]) + 1])
+        ok &= bool(loops) and any(astlib.calls_in(st, "set_index") for st in astlib.body_no_doc(ifn)[astlib.body_no_doc(ifn).index(loops[0]) + 1:])
         rix = ast.unparse(astlib.find_func(m, "eval_sys_fn_reset_index"))
         ok &= "if x.has_index():\n        x.reset_index()\n        return 1\n    return 0" in rix
         d = astlib.module("klongpy/dyads.py")
@@ -331,8 +337,13 @@ class TableGen:
                 return None
             k = 1 if (len(cur) == 1 or rng.random() < 0.6) else 2
             cs = rng.sample(cur, k)
-            if rng.random() < 0.04:
-                cs = ["q"]
+            q = rng.random()
+            if q < 0.04:
+                cs = ["q"]                                   # the only name is unknown
+            elif q < 0.10:
+                cs = [rng.choice(cur), "zz"]                 # rejected on its SECOND name
+            elif q < 0.14:
+                cs = ["zz", rng.choice(cur)]                 # rejected on its first name
             op = ("index", cs)
         elif r < 0.83:
             op = ("rindex",)
@@ -409,6 +420,13 @@ def fixed_cases():
     out.append(dict(ab, ops=[("ins", [n(4), n(5)]), ("set", "c", [n(1), n(2), n(3), n(4)]), ("qall",), ("ins", [n(5), n(5), n(5)]), ("count",)], tag="set-after-insert"))
     out.append(dict(ab, ops=[("index", ["a"]), ("ins", [n(0), n(5)]), ("read", "a"), ("read", "b")], tag="indexed-read-after-insert"))
     out.append(dict(ab, ops=[("ins", [n(2), n(3)]), ("index", ["a", "b"]), ("rindex",), ("qall",)], tag="index-drops-equal-rows"))
+    # rejected operations leave no trace: .index rejected on its second / first / only name, a row of the wrong width,
+    # an unknown column, an added column of the wrong length - each followed by inserts and reads
+    out.append(dict(ab, ops=[("index", ["a", "zz"]), ("schema",), ("qall",), ("ins", [n(4), n(5)]), ("count",), ("read", "a"), ("qall",),
+                             ("index", ["zz", "b"]), ("ins", [n(5), n(6)]), ("read", "b"), ("index", ["q"]), ("ins", [n(1)]), ("ins", [n(1), n(2), n(3)]),
+                             ("read", "nosuch"), ("set", "c", [n(1)]), ("schema",), ("ins", [n(6), n(7)]), ("qall",),
+                             ("index", ["a"]), ("index", ["b"]), ("ins", [n(0), n(0)]), ("index", ["a", "zz"]), ("read", "a"), ("rindex",), ("qcount",)],
+                    tag="rejected-operations"))
     # two tables in one database: buffered inserts into BOTH, then a query on one of them, then reads of the other
     g = {"cols": ["c"], "types": ["i"], "rows": [[n(3)], [n(4)]]}
     out.append({"tables": [dict(ab), g], "tag": "two-tables",
@@ -851,7 +869,7 @@ def run(tier, replay=None):
                           {"broken_obligation": proof["broken"], "coq_error": proof["error"], "generated": chk.generated_text}, no_input=True)
     return chk.finish(
         rule="seeded random operation sequences (length <= %d; create from 1-4 int/real/string columns with 0-4 rows; insert, batch insert incl. a key twice in one batch, "
-             "t?col, #t, .schema, .index on 1-2 columns, .rindex, added/overwritten column, db select */projection/count) through Klong source text, plus 8 fixed histories, plus sequences over 2-3 tables in ONE database (interleaved operations, .schema(db), query on a missing table); "
+             "t?col, #t, .schema, .index on 1-2 columns, .rindex, added/overwritten column, db select */projection/count) through Klong source text, plus 9 fixed histories (incl. rejected operations of every kind followed by inserts and reads), plus sequences over 2-3 tables in ONE database (interleaved operations, .schema(db), query on a missing table); "
              "each compared op by op with the extracted spec (inside the property's domain) and the extracted model. distinct = distinct (column types, initial row count, op-kind sequence); "
              "non-trivial = at least one insert followed by a read" % maxlen,
         trusted_base=TRUSTED, assumptions=ASSUME)
